@@ -2,9 +2,10 @@
    s_* : compiled form of a string (literals, atom offsets, kind, modifiers, HIR, pre/post HIR);
    model_scan : Model/HirScan.v (AC hit order -> confirm literal -> validators -> insert_match);
    ends / Lens : Spec/Regex.v (independent reference semantics). *)
-From Boreal Require Import Base.Prelude Spec.Regex Model.Hir Model.Widen Model.Validator Model.Raw Model.HirScan
-  Model.Decomp Model.HexCase
-  Proofs.HexScanProofs Proofs.ValidatorProofs Proofs.DecompProofs Proofs.HexProofs Proofs.HexWitnesses.
+From Boreal Require Import Base.Prelude Spec.Regex Model.Hir Model.Widen Model.Validator Model.SimpleValidator Model.Raw
+  Model.HirScan Model.Decomp Model.HexCase
+  Proofs.HexScanProofs Proofs.SimpleProofs Proofs.ValidatorProofs Proofs.DecompProofs Proofs.HexProofs Proofs.HexHirProofs
+  Proofs.HexWitnesses.
 From Coq Require Import Sorted.
 
 (* Ordered, one match per offset: every string that goes through the Aho-Corasick pass, any
@@ -78,6 +79,28 @@ Theorem C02_flat_hex_exact :
     /\ Forall (fun y => In (snd y) (Lens (flags_of md) mem (HConcat (A ++ R ++ B)) (fst y))) r.
 Proof. exact flat_hex_exact. Qed.
 
+(* The simple byte walker (validator/simple.rs), whenever SimpleValidator::new accepts the HIR, returns
+   what the DFA validator returns: the choice made by HalfValidator::new never changes a result. *)
+Theorem C02_simple_fwd_correct :
+  forall mem md h sv start lim,
+    simple_new md h false = Some sv -> start <= lim <= nlen mem ->
+    simple_fwd sv mem start lim = lf_end (flags_of md) mem h start lim.
+Proof. exact simple_fwd_correct. Qed.
+
+Theorem C02_simple_rev_correct :
+  forall mem md h sv lo e,
+    simple_new md h true = Some sv -> lo <= e <= nlen mem ->
+    simple_rev sv mem lo e = rev_min_start (flags_of md) mem h lo e.
+Proof. exact simple_rev_correct. Qed.
+
+(* a hex string has no anchor, no word boundary, no greedy repetition: it is never scanned raw because
+   of anchors, never gets the Greedy validator *)
+Theorem C02_hex_hir_tame :
+  forall ts, has_line_anchor (hir_of_tokens ts) = false
+             /\ has_word_boundary (hir_of_tokens ts) = false
+             /\ has_greedy (hir_of_tokens ts) = false.
+Proof. exact hex_hir_tame. Qed.
+
 (* known findings are real; pinned-tree decompositions that were repaired were wrong *)
 Theorem C02_start_position_refuted :
   In 0 (starts_spec (flags_of md_hex) m_95 h_95)
@@ -100,6 +123,14 @@ Theorem C02_alt_first_post_pinned_refuted :
                 m_pin 1000 = [(0, 7)].
 Proof. exact alt_first_post_pinned_refuted. Qed.
 
+(* non-vacuity: SimpleValidator::new accepts `BB CC DD ?? EE` (post part of the example below) *)
+Example C02_simple_example :
+  match simple_new md_hex (HConcat (R_ex ++ B_ex)) false with
+  | Some sv => simple_fwd sv m_ex 2 15 = Some 7
+  | None => False
+  end.
+Proof. vm_compute. reflexivity. Qed.
+
 (* non-vacuity: { AA [1-3] BB CC DD ?? EE } on a 15-byte input meets every hypothesis of C02_flat_hex_exact *)
 Example C02_flat_example :
   let d := flat_desc md_hex A_ex R_ex B_ex [(0, 0)] KNonGreedy in
@@ -116,6 +147,9 @@ Print Assumptions C02_atomized_exact.
 Print Assumptions C02_flat_decomp_glue.
 Print Assumptions C02_flat_decomp_split.
 Print Assumptions C02_flat_hex_exact.
+Print Assumptions C02_simple_fwd_correct.
+Print Assumptions C02_simple_rev_correct.
+Print Assumptions C02_hex_hir_tame.
 Print Assumptions C02_start_position_refuted.
 Print Assumptions C02_alt_glue_refuted.
 Print Assumptions C02_alt_first_post_pinned_refuted.
